@@ -1,7 +1,15 @@
 use std::mem;
 use std::ptr;
+#[cfg(not(multiqueue2_verif))]
 use std::sync::atomic::{AtomicUsize, Ordering};
+#[cfg(multiqueue2_verif)]
+use std::sync::atomic::Ordering;
+#[cfg(multiqueue2_verif)]
+use crate::verif_hooks::AtomicUsize;
+#[cfg(not(multiqueue2_verif))]
 use std::sync::Mutex;
+#[cfg(multiqueue2_verif)]
+use crate::verif_hooks::Mutex;
 
 use crate::alloc;
 use crate::atomicsignal::AtomicSignal;
